@@ -297,10 +297,21 @@ def run_secured_fragments(params, known):
         v['case'] = case
         violations.append(v)
     payload = bytes((i * 9 + 4) & 0xFF for i in range(60))
-    whole = dict(primary=dict(flags=0, crc_type=1, dest='dtn://node/app', src='dtn://secsrc/app', report_to='dtn:none', ts=(T, 4), lifetime=3600000),
-                 blocks=[dict(type=1, num=1, flags=0, crc_type=1, data=payload)])
-    secured = A.add_bib(whole, [1], KEY, KID, 'dtn://secsrc/', scope={0: 1, -1: 1}, num=2)
     cuts = [(0, 20), (20, 45), (45, 60)]
+    # the primary block carries CRC-16, CRC-32 or no CRC at all (it is covered by the integrity block)
+    for pri_crc in (1, 2, 0):
+        whole = dict(primary=dict(flags=0, crc_type=pri_crc, dest='dtn://node/app', src='dtn://secsrc/app', report_to='dtn:none', ts=(T, 4 + pri_crc), lifetime=3600000),
+                     blocks=[dict(type=1, num=1, flags=0, crc_type=1, data=payload)])
+        secured = A.add_bib(whole, [1], KEY, KID, 'dtn://secsrc/', scope={0: 1, -1: 1}, num=2)
+        _secured_orders(secured, payload, cuts, pri_crc, viol, keys)
+        count += 48
+    return dict(name=params['name'], kind='enum', evaluations=count, nontrivial_keys=sorted(keys), violations=violations, known=[], samples=[])
+
+
+def _secured_orders(secured, payload, cuts, pri_crc, viol, keys):
+    import itertools
+    from .c03 import KEY, KID, sym_key
+    count = 0
 
     def fragment(lo, hi, alter=False):
         pri = dict(secured['primary'], flags=B.FLAG_IS_FRAGMENT, frag_offset=lo, total_adu=len(payload))
@@ -314,14 +325,14 @@ def run_secured_fragments(params, known):
         for order in itertools.permutations(range(3)):
             for repeat in (None, order[0]):
                 count += 1
-                case = dict(order=list(order), altered_fragment=altered, repeated=repeat)
+                case = dict(order=list(order), altered_fragment=altered, repeated=repeat, primary_crc_type=pri_crc)
                 world = BpWorld(dict(node_id=NODE, rx_routes=[('^dtn://node/.*', 'deliver')], tx_routes=[]))
                 world.cose().sym_key_store[KID] = sym_key(KEY, ['MacCreateOp', 'MacVerifyOp'], 'HMAC256')
                 seq = list(order) + ([repeat] if repeat is not None else [])
                 for k in seq:
                     world.receive(fragment(cuts[k][0], cuts[k][1], alter=(altered == k)))
                     world.quiesce()
-                keys.add('%r/%s/%s' % (order, altered, repeat))
+                keys.add('%r/%s/%s/%d' % (order, altered, repeat, pri_crc))
                 got = [bytes.fromhex(b[2]) for d in world.probe.seen for b in d['blocks'] if b[0] == 1]
                 if world.escaped:
                     viol('exception-escaped-idle-callback', '%s: %s' % (world.escaped[-1][0], world.escaped[-1][2]), case)
@@ -330,7 +341,6 @@ def run_secured_fragments(params, known):
                          'delivered %d bundles (errors %r)' % (len(got), world.api_errors[:1]), case)
                 elif altered is not None and got:
                     viol('altered-secured-bundle-delivered', 'fragment %d altered, %d bundles delivered' % (altered, len(got)), case)
-    return dict(name=params['name'], kind='enum', evaluations=count, nontrivial_keys=sorted(keys), violations=violations, known=[], samples=[])
 
 
 def run_time_gaps(params, known):
